@@ -256,3 +256,370 @@ def check_finitary(ix, rep, modname, rule='R-ORD'):
         rep.ok(rule, m.rel, 'intersection', 'copies-inputs', 'the operands are copied before pop()', f.node.lineno)
     else:
         rep.fail(rule, m.rel, 'intersection', 'copies-inputs', 'the merge pops from its operand lists without copying them first', f.node.lineno)
+
+
+# ------------------------------------------------------------------------------------------------- dense-time online untimed since
+def check_since_online(ix, rep, cls, rule='R-ORD'):
+    """SinceOperation.update merges the two operand buffers itself: per pair of current segments [a_start, a_end) x [b_start, b_end) it compares
+    the ends only.  Over the 13 weak orderings: a sample is emitted iff the segments overlap with positive length, at max(a_start, b_start), with
+    the value  max(min(l, r), min(l, prev))  (non-strict since), the carried state becomes that value, and the segment that ends first is dropped
+    (both when they end together)."""
+    from sa import opsum as O
+    from sa.rules import opref
+    f = cls.methods.get('update')
+    if f is None:
+        rep.error('%s: no update' % cls.name)
+        return 0
+    rep.analysed(f)
+    rep.unit(f.module.rel)
+    loop = None
+    for st in f.node.body:
+        if isinstance(st, ast.While):
+            loop = st
+    if loop is None:
+        rep.error('%s (%s.update): merge loop not found' % (f.where, cls.name))
+        return 0
+    params = [a.arg for a in f.node.args.args[1:3]]
+    # buffers: a = self.x_buf + sample_left ...
+    lists = {}
+    for st in f.node.body:
+        if isinstance(st, ast.Assign) and isinstance(st.targets[0], ast.Name) and isinstance(st.value, ast.BinOp) and isinstance(st.value.op, ast.Add) \
+                and isinstance(st.value.right, ast.Name) and st.value.right.id in params:
+            lists[st.targets[0].id] = 1 + params.index(st.value.right.id)
+    if sorted(lists.values()) != [1, 2]:
+        rep.error('%s (%s.update): operand buffers not recognised (%s)' % (f.where, cls.name, lists))
+        return 0
+    idx = {}
+    for st in f.node.body:
+        if isinstance(st, ast.Assign) and all(isinstance(t, ast.Name) for t in st.targets) and isinstance(st.value, ast.Constant) and st.value.value == 1:
+            for t in st.targets:
+                idx[t.id] = 1
+    # names inside the loop
+    sym = {}      # local -> ('t', 'p1') | ('v', k, 'cur'|'next')
+    for st in loop.body:
+        if isinstance(st, ast.Assign) and isinstance(st.targets[0], ast.Name) and isinstance(st.value, ast.Subscript) and isinstance(st.value.value, ast.Subscript) \
+                and isinstance(st.value.value.value, ast.Name) and st.value.value.value.id in lists and isinstance(st.value.slice, ast.Constant):
+            k = lists[st.value.value.value.id]
+            ie = ast.unparse(st.value.value.slice).replace(' ', '')
+            which = 'cur' if ie.endswith('-1') else 'next'
+            if st.value.slice.value == 0:
+                sym[st.targets[0].id] = ('t', ('p' if which == 'cur' else 'c') + str(k))
+            else:
+                sym[st.targets[0].id] = ('v', k, which)
+    need = {('t', 'p1'), ('t', 'c1'), ('t', 'p2'), ('t', 'c2')}
+    if not need <= set(sym.values()):
+        rep.error('%s (%s.update): segment ends not recognised (%s)' % (f.where, cls.name, sorted(sym.values(), key=str)))
+        return 0
+    slotp = 'dense-online:Since'
+    probs = {}
+    n = 0
+    listname = {v: k for k, v in lists.items()}
+
+    def num(e, d, env):
+        if isinstance(e, ast.Name) and e.id in env:
+            return env[e.id]
+        if isinstance(e, ast.Name) and e.id in sym and sym[e.id][0] == 't':
+            return d[sym[e.id][1]]
+        if isinstance(e, ast.Call) and isinstance(e.func, ast.Name) and e.func.id in ('min', 'max') and len(e.args) == 2:
+            x, y = num(e.args[0], d, env), num(e.args[1], d, env)
+            return min(x, y) if e.func.id == 'min' else max(x, y)
+        raise AnalysisError('time expression %s' % ast.unparse(e)[:40])
+
+    def test(t, d, env):
+        if isinstance(t, ast.Compare) and len(t.ops) == 1:
+            x, y = num(t.left, d, env), num(t.comparators[0], d, env)
+            return {ast.Lt: x < y, ast.LtE: x <= y, ast.Gt: x > y, ast.GtE: x >= y, ast.Eq: x == y, ast.NotEq: x != y}[type(t.ops[0])]
+        if isinstance(t, ast.BoolOp):
+            vals = [test(v, d, env) for v in t.values]
+            return all(vals) if isinstance(t.op, ast.And) else any(vals)
+        raise AnalysisError('test %s' % ast.unparse(t)[:40])
+
+    val_expr = None
+    state_ok = None
+    for o in orderings():
+        d = dict(zip(SYMS, o))
+        n += 1
+        env = {}
+        pops = set()
+        emitted = []
+        state_written = []
+
+        def run(stmts):
+            nonlocal val_expr
+            for st in stmts:
+                if isinstance(st, ast.If):
+                    run(st.body if test(st.test, d, env) else st.orelse)
+                elif isinstance(st, ast.Delete):
+                    for t in st.targets:
+                        if isinstance(t, ast.Subscript) and isinstance(t.value, ast.Name) and t.value.id in lists:
+                            pops.add(lists[t.value.id])
+                elif isinstance(st, ast.Expr) and isinstance(st.value, ast.Call) and isinstance(st.value.func, ast.Name) and st.value.func.id == 'del':
+                    a0 = st.value.args[0]
+                    if isinstance(a0, ast.Subscript) and isinstance(a0.value, ast.Name) and a0.value.id in lists:
+                        pops.add(lists[a0.value.id])
+                elif isinstance(st, ast.Assign) and isinstance(st.targets[0], ast.Name):
+                    nm = st.targets[0].id
+                    if nm in sym:
+                        continue
+                    try:
+                        env[nm] = num(st.value, d, env)
+                    except AnalysisError:
+                        env[nm] = ('expr', st.value)
+                elif isinstance(st, ast.Assign) and ast.unparse(st.targets[0]).startswith('self.'):
+                    state_written.append((ast.unparse(st.targets[0]), st.value))
+                elif isinstance(st, ast.Expr) and isinstance(st.value, ast.Call) and isinstance(st.value.func, ast.Attribute) and st.value.func.attr == 'append':
+                    a0 = st.value.args[0]
+                    if isinstance(a0, ast.List) and len(a0.elts) == 2:
+                        emitted.append((num(a0.elts[0], d, env), a0.elts[1]))
+                elif isinstance(st, (ast.Pass,)):
+                    pass
+        try:
+            run(loop.body)
+        except AnalysisError as e:
+            rep.error('%s (%s.update): %s' % (f.where, cls.name, e))
+            return n
+        desc = ' '.join(_describe(d))
+        overlap = max(d['p1'], d['p2']) < min(d['c1'], d['c2'])
+        if overlap and not emitted:
+            probs.setdefault('emit', 'ordering %s: the segments overlap but no sample is emitted' % desc)
+        if not overlap and emitted:
+            probs.setdefault('emit-empty', 'ordering %s: a sample is emitted although the segments do not overlap' % desc)
+        for (t, ve) in emitted:
+            if t != max(d['p1'], d['p2']):
+                probs.setdefault('emit-time', 'ordering %s: the sample is emitted at %s instead of max(a_start, b_start)' % (desc, t))
+            vexpr = env.get(ve.id) if isinstance(ve, ast.Name) else ('expr', ve)
+            if isinstance(vexpr, tuple) and vexpr[0] == 'expr':
+                val_expr = vexpr[1]
+            if overlap:
+                sw = [v for (k_, v) in state_written if k_ == 'self.prev']
+                if not sw or not (isinstance(sw[-1], ast.Name) and isinstance(ve, ast.Name) and sw[-1].id == ve.id):
+                    probs.setdefault('state', 'ordering %s: the carried state is not set to the emitted value' % desc)
+        want = {1} if d['c1'] < d['c2'] else {2} if d['c2'] < d['c1'] else {1, 2}
+        if pops != want:
+            probs.setdefault('advance', 'ordering %s: drops the current segment of %s; the segment(s) ending first are %s' % (
+                desc, sorted(listname[k] for k in pops) or 'nothing', sorted(listname[k] for k in want)))
+    # the emitted value is the non-strict since step
+    if val_expr is not None:
+        names = {}
+        for nm, s_ in sym.items():
+            if s_[0] == 'v' and s_[2] == 'cur':
+                names[nm] = opref.X0 if s_[1] == 1 else opref.X1
+        try:
+            sc = O.Scalar(dict(names))
+            sc.env['self.prev'] = opref.ST
+            term = _scalar_with_self(O, val_expr, names)
+        except Exception as e:
+            term = None
+        want_t = O.mk('max', [O.mk('min', [opref.X0, opref.X1]), O.mk('min', [opref.X0, opref.ST])])
+        if term is None:
+            rep.error('%s (%s.update): emitted value %s not summarised' % (f.where, cls.name, ast.unparse(val_expr)))
+        elif term != want_t:
+            probs.setdefault('value', 'the emitted value is %s; the non-strict since step is max(min(l, r), min(l, prev))' % ast.unparse(val_expr))
+    # initial state: no witness yet
+    init = cls.methods.get('__init__')
+    iv = None
+    if init is not None:
+        for st in init.node.body:
+            if isinstance(st, ast.Assign) and ast.unparse(st.targets[0]) == 'self.prev':
+                iv = st.value
+    if iv is None or ast.unparse(iv).replace(' ', '').replace('"', "'") != "-float('inf')":
+        probs.setdefault('init', 'the carried state starts as %s; before any witness the since is -inf' % (ast.unparse(iv) if iv is not None else 'undefined'))
+    for key, text in sorted(probs.items()):
+        rep.fail(rule, f.module.rel, '%s.update' % cls.name, '%s:%s' % (slotp, key), text, loop.lineno)
+    if not probs:
+        rep.ok(rule, f.module.rel, '%s.update' % cls.name, slotp, '%d orderings: emit iff overlap, at max(starts), value max(min(l,r),min(l,prev)), state updated, segment ending first dropped' % n, loop.lineno)
+    return n
+
+
+def _scalar_with_self(O, e, names):
+    """operator-summary term of a value expression over a_val (x0), b_val (x1), self.prev (st)"""
+    from sa.rules import opref
+    if isinstance(e, ast.Name) and e.id in names:
+        return names[e.id]
+    if isinstance(e, ast.Attribute) and ast.unparse(e) == 'self.prev':
+        return opref.ST
+    if isinstance(e, ast.Call) and isinstance(e.func, ast.Name) and e.func.id in ('min', 'max'):
+        return O.mk(e.func.id, [_scalar_with_self(O, a, names) for a in e.args])
+    raise AnalysisError('value expression %s' % ast.unparse(e)[:40])
+
+
+# ------------------------------------------------------------------------------------------------- online kernel: remainder loops
+def check_remainder(ix, rep, modname, rule='R-ORD'):
+    """After the main merge one operand has only its last sample left (time q, value held from q on, extent unknown) while the other may still
+    have segments [p, c).  The two remainder loops emit what is known up to q.  Over the five weak orderings of q against p < c:
+        q < p        nothing is known about the overlap: stop, no sample
+        q = p        closing sample [q, method(value at p, value at q)]; no list advances past q
+        p < q < c    closing sample [q, method(value on [p,c), value at q)]
+        q = c        closing sample [q, method(value from c on, value at q)]; the exhausted segment is dropped
+        q > c        the segment lies before the other operand's knowledge: drop it, no sample, and no stale closing sample is kept
+    the slot function always gets (list-1 value, list-2 value); a loop iteration that does not stop advances the longer list."""
+    m = ix.module(modname)
+    f = m.functions.get('intersection')
+    if f is None:
+        raise AnalysisError('%s.intersection vanished' % modname)
+    params = [a.arg for a in f.node.args.args]
+    p1n, p2n, meth = params[0], params[1], params[2]
+    # remainder loops: while <list>[1:] with a single list in the test, after the main loop
+    loops = []
+    for st in ast.walk(f.node):
+        if isinstance(st, ast.While) and isinstance(st.test, ast.Subscript) and isinstance(st.test.value, ast.Name) and st.test.value.id in (p1n, p2n):
+            loops.append((st, 1 if st.test.value.id == p1n else 2))
+    slotp = modname.split('.')[-2]
+    if len(loops) != 2:
+        rep.error('%s: expected two remainder loops, found %d' % (f.where, len(loops)))
+        return 0
+    rep.analysed(f)
+    n = 0
+    for loop, k in loops:
+        other = 2 if k == 1 else 1
+        # names: current_in_sample_k = in_samples_k[1]; prev_in_sample_1/2 are bound before
+        cur = None
+        for st in loop.body:
+            if isinstance(st, ast.Assign) and isinstance(st.targets[0], ast.Name) and isinstance(st.value, ast.Subscript) and isinstance(st.value.value, ast.Name) \
+                    and st.value.value.id == (p1n if k == 1 else p2n) and isinstance(st.value.slice, ast.Constant) and st.value.slice.value == 1:
+                cur = st.targets[0].id
+        prevs = {}
+        for st in f.node.body:
+            if isinstance(st, ast.Assign) and isinstance(st.targets[0], ast.Name) and isinstance(st.value, ast.Subscript) and isinstance(st.value.value, ast.Name) \
+                    and isinstance(st.value.slice, ast.Constant) and st.value.slice.value == 0:
+                if st.value.value.id == p1n:
+                    prevs[1] = st.targets[0].id
+                if st.value.value.id == p2n:
+                    prevs[2] = st.targets[0].id
+        if cur is None or set(prevs) != {1, 2}:
+            rep.error('%s: remainder loop over list %d not in the recognised shape' % (f.where, k))
+            continue
+        chain = [s for s in loop.body if isinstance(s, ast.If)]
+        if len(chain) != 1:
+            rep.error('%s: remainder loop over list %d has %d if-chains' % (f.where, k, len(chain)))
+            continue
+        # the loop is entered whenever its list still has a successor: an enclosing guard must say exactly that
+        lname = p1n if k == 1 else p2n
+        for g in ast.walk(f.node):
+            if isinstance(g, ast.If) and (loop in g.body):
+                gt = ast.unparse(g.test).replace(' ', '')
+                if gt not in ('len(%s)>1' % lname, 'len(%s)>=2' % lname, '%s[1:]' % lname, '1<len(%s)' % lname):
+                    rep.fail(rule, m.rel, 'intersection', '%s:remainder:list%d:guard' % (slotp, k), 'the remainder loop over the longer list is guarded by `%s`: it must run whenever that list '
+                             'still has a successor, otherwise the closing sample of the update is missing' % ast.unparse(g.test), g.lineno)
+        names = {prevs[k]: 'p', cur: 'c', prevs[other]: 'q'}
+        probs = {}
+        for pos, d in (('q < p', {'q': 0, 'p': 1, 'c': 2}), ('q = p', {'q': 1, 'p': 1, 'c': 2}), ('p < q < c', {'p': 0, 'q': 1, 'c': 2}),
+                       ('q = c', {'p': 0, 'q': 2, 'c': 2}), ('q > c', {'p': 0, 'c': 1, 'q': 2})):
+            n += 1
+            st_ = {'stop': False, 'adv': False, 'last': 'keep', 'emit': [], 'lastval': None}
+
+            def tnum(e):
+                if isinstance(e, ast.Subscript) and isinstance(e.value, ast.Name) and e.value.id in names and isinstance(e.slice, ast.Constant) and e.slice.value == 0:
+                    return d[names[e.value.id]]
+                raise AnalysisError('remainder test operand %s' % ast.unparse(e)[:40])
+
+            def test(t):
+                if isinstance(t, ast.Compare):
+                    vals = [tnum(x) for x in [t.left] + list(t.comparators)]
+                    ok = True
+                    for x, op, y in zip(vals, t.ops, vals[1:]):
+                        ok = ok and {ast.Lt: x < y, ast.LtE: x <= y, ast.Gt: x > y, ast.GtE: x >= y, ast.Eq: x == y, ast.NotEq: x != y}[type(op)]
+                    return ok
+                if isinstance(t, ast.BoolOp):
+                    vals = [test(v) for v in t.values]
+                    return all(vals) if isinstance(t.op, ast.And) else any(vals)
+                raise AnalysisError('remainder test %s' % ast.unparse(t)[:40])
+            env = {}
+
+            def sample_of(e):
+                """[time expr, value expr] list literal or a local bound to one -> (time symbol, (which-1, which-2))"""
+                if isinstance(e, ast.Name) and e.id in env:
+                    return env[e.id]
+                if isinstance(e, ast.List) and len(e.elts) == 2:
+                    tt = tnum(e.elts[0])
+                    ve = e.elts[1]
+                    if isinstance(ve, ast.Name) and ve.id in env:
+                        return (tt, env[ve.id])
+                    return (tt, call_args(ve))
+                return None
+
+            def call_args(ve):
+                if isinstance(ve, ast.Call) and isinstance(ve.func, ast.Name) and ve.func.id == meth and len(ve.args) == 2:
+                    out = []
+                    for a in ve.args:
+                        if isinstance(a, ast.Subscript) and isinstance(a.value, ast.Name) and a.value.id in names and isinstance(a.slice, ast.Constant) and a.slice.value == 1:
+                            out.append(names[a.value.id])
+                        else:
+                            out.append('?')
+                    return tuple(out)
+                return ('?', '?')
+
+            def run(stmts):
+                for s2 in stmts:
+                    if st_['stop']:
+                        return
+                    if isinstance(s2, ast.If):
+                        run(s2.body if test(s2.test) else s2.orelse)
+                    elif isinstance(s2, ast.Break):
+                        st_['stop'] = True
+                    elif isinstance(s2, ast.Assign) and isinstance(s2.targets[0], ast.Name):
+                        nm = s2.targets[0].id
+                        if nm == 'last':
+                            if isinstance(s2.value, ast.List) and not s2.value.elts:
+                                st_['last'] = 'cleared'
+                            else:
+                                st_['last'] = sample_of(s2.value)
+                        elif nm in names and names[nm] == 'p':
+                            pass    # prev := current (advance bookkeeping)
+                        else:
+                            v = s2.value
+                            if isinstance(v, ast.Call):
+                                env[nm] = call_args(v)
+                            elif isinstance(v, ast.List):
+                                env[nm] = sample_of(v)
+                    elif isinstance(s2, ast.Expr) and isinstance(s2.value, ast.Call):
+                        c = s2.value
+                        if isinstance(c.func, ast.Attribute) and c.func.attr == 'pop' and isinstance(c.func.value, ast.Name) and c.func.value.id == (p1n if k == 1 else p2n):
+                            st_['adv'] = True
+                        elif isinstance(c.func, ast.Name) and c.func.id == '_append' and len(c.args) == 2:
+                            sm = sample_of(c.args[1])
+                            if sm is None and isinstance(c.args[1], ast.Name) and c.args[1].id == 'last':
+                                sm = st_['last']
+                            st_['emit'].append(sm)
+                        elif isinstance(c.func, ast.Attribute) and c.func.attr == 'append':
+                            st_['emit'].append(sample_of(c.args[0]))
+            try:
+                run(chain[0:1])
+            except AnalysisError as e:
+                rep.error('%s: %s' % (f.where, e))
+                return n
+            # the value pair (list-1 source, list-2 source) expected at q
+            src_k = {'q = p': 'p', 'p < q < c': 'p', 'q = c': 'c'}.get(pos)
+            want_pair = None
+            if src_k:
+                want_pair = (src_k, 'q') if k == 1 else ('q', src_k)
+            eff = [x for x in st_['emit'] if x] + ([st_['last']] if isinstance(st_['last'], tuple) else [])
+            key = 'list%d:%s' % (k, pos)
+            if want_pair is None:
+                if eff:
+                    probs[key] = 'state %s: a sample is produced although nothing is known there' % pos
+                elif pos == 'q < p' and not st_['stop']:
+                    probs[key] = 'state %s: the loop does not stop' % pos
+                elif pos == 'q > c' and not st_['adv']:
+                    probs[key] = 'state %s: the exhausted segment is not dropped (no progress)' % pos
+                elif pos == 'q > c' and st_['last'] != 'cleared':
+                    probs[key] = 'state %s: a stale closing sample is kept' % pos
+            else:
+                if not eff:
+                    probs[key] = 'state %s: no closing sample at the last commonly known time' % pos
+                else:
+                    for (tt, pair) in eff:
+                        if tt != d['q']:
+                            probs[key] = 'state %s: the closing sample is at %s, not at the last sample time of the shorter operand' % (pos, [nm for nm, v in d.items() if v == tt])
+                        elif pair != want_pair:
+                            probs[key] = 'state %s: the closing sample is method(%s, %s); at that time the operands have the values (%s, %s)  [p/c: current/next sample of the longer list, q: last sample of the other]' % (
+                                pos, pair[0], pair[1], want_pair[0], want_pair[1])
+                if pos == 'q = c' and not (st_['adv'] or st_['stop']):
+                    probs[key] = 'state %s: no progress' % pos
+                if pos == 'p < q < c' and not (st_['adv'] or st_['stop']):
+                    probs[key] = 'state %s: no progress' % pos
+        for key, text in sorted(probs.items()):
+            rep.fail(rule, m.rel, 'intersection', '%s:remainder:%s' % (slotp, key), text, loop.lineno)
+        if not probs:
+            rep.ok(rule, m.rel, 'intersection', '%s:remainder:list%d' % (slotp, k), '5 orderings of the other operand\'s last sample against the current segment: closing sample and progress as the semantics requires', loop.lineno)
+    return n
